@@ -314,9 +314,33 @@ def action_coverage(out):
 # --------------------------------------------------------------------------
 # judging observation logs with a Trace_* module
 
+JUDGE_SPLIT = 60000
+
+
 def judge(ctx, module, obs_path, n_records, env=None, timeout=1500, name=None, workers=None, xmx="6g"):
     """Validate an observation log with spec/<module>.tla (INSTANCE Stepper).
-    Returns (fails, drifts, stats): fails = list of (index, [why..])."""
+    Returns (fails, drifts, stats): fails = list of (index, [why..]).  Large logs are validated in
+    parts of JUDGE_SPLIT records (bounded TLC heap and run time)."""
+    if n_records > JUDGE_SPLIT:
+        fails, drifts = [], []
+        tot = {"n": 0, "fail": 0, "skip": 0, "nt": 0, "drift": 0}
+        part, k, off = ctx.path("judge-part.ndjson"), 0, 0
+        with open(obs_path) as f:
+            lines = f.readlines()
+        while off < len(lines):
+            chunk = lines[off:off + JUDGE_SPLIT]
+            with open(part, "w") as g:
+                g.writelines(chunk)
+            k += 1
+            f2, d2, t2 = judge(ctx, module, part, len(chunk), env=env, timeout=timeout, name="%s-part%d" % (name or module, k),
+                               workers=workers, xmx=xmx)
+            fails += [(i + off, w) for (i, w) in f2]
+            drifts += [(i + off, w) for (i, w) in d2]
+            for key in tot:
+                tot[key] += t2[key]
+            off += len(chunk)
+        os.remove(part)
+        return fails, drifts, tot
     if n_records == 0:
         return [], [], {"n": 0, "fail": 0, "skip": 0, "nt": 0, "drift": 0}
     if workers is None:
